@@ -8,6 +8,7 @@ flag must be the same and, when placement succeeds, every object's resolved slic
 from __future__ import annotations
 
 import itertools
+import os
 
 from hypothesis import strategies as st
 
@@ -90,6 +91,8 @@ def body(ctx, case):
 def small_cases(ctx):
     full = ctx.tier == "thorough"
     stride = 1 if full else 61
+    if full and float(os.environ.get("VERIF_SCALE", "1")) < 1:  # development aid of the driver: thinned, not exhaustive
+        stride = max(1, round(1 / float(os.environ["VERIF_SCALE"])))
     for i, sysm in enumerate(P.small_systems(2, 2)):
         if i % stride:
             continue
